@@ -173,6 +173,8 @@ theorem markup_comment {inp : Bytes} {stack stack' : List Bytes} {rest : Bytes}
 def QEv.stopsRun : QEv → Bool
   | .err => true
   | .pi c => !piTargetOk c
+  | .start _ r => !startOk r
+  | .empty _ r => !startOk r
   | _ => false
 
 /-- such a token anywhere in the token sequence: `read_event` iterated ends with an error event -/
@@ -185,14 +187,18 @@ theorem deEventsAt_stops : ∀ (q : List QEv) (d : Nat), q.any QEv.stopsRun = tr
     cases t with
     | err => exact ⟨[], .invalidXml, by simp [deEventsAt]⟩
     | start n r =>
-      obtain ⟨l, e, hl⟩ := ih (by simpa [QEv.stopsRun] using h) (d + 1)
-      exact ⟨.start n r :: l, e, by simp [deEventsAt, hl]⟩
+      by_cases hc : startOk r = true
+      · obtain ⟨l, e, hl⟩ := ih (by simpa [QEv.stopsRun, hc] using h) (d + 1)
+        exact ⟨.start n r :: l, e, by simp [deEventsAt, hl, hc]⟩
+      · exact ⟨[], .invalidXml, by simp [deEventsAt, hc]⟩
     | stop n =>
       obtain ⟨l, e, hl⟩ := ih (by simpa [QEv.stopsRun] using h) (d - 1)
       exact ⟨.stop n :: l, e, by simp [deEventsAt, hl]⟩
     | empty n r =>
-      obtain ⟨l, e, hl⟩ := ih (by simpa [QEv.stopsRun] using h) d
-      exact ⟨.start n r :: .stop n :: l, e, by simp [deEventsAt, hl]⟩
+      by_cases hc : startOk r = true
+      · obtain ⟨l, e, hl⟩ := ih (by simpa [QEv.stopsRun, hc] using h) d
+        exact ⟨.start n r :: .stop n :: l, e, by simp [deEventsAt, hl, hc]⟩
+      · exact ⟨[], .invalidXml, by simp [deEventsAt, hc]⟩
     | text raw =>
       obtain ⟨l, e, hl⟩ := ih (by simpa [QEv.stopsRun] using h) d
       by_cases hc : d = 0 ∧ raw.all isWs = false
@@ -320,5 +326,226 @@ theorem decodeDoc_named_pi (X : Ext) {root : Bytes} {s : Sch} {q : List QEv} {v 
     | true => rw [List.any_eq_true.mpr ⟨.pi c, hc, hp⟩] at hs; cases hs
   apply piTargetOk_body
   simpa [QEv.stopsRun] using this
+
+/-! ### attributes (XML 1.0 production [41], constraint *Unique Att Spec*) -/
+
+/-- the clause attribute-syntax on the bytes that follow the element name in a start tag: a sequence of
+`S* key S* '=' S* q value q` — `q` one of the two quotes, `value` free of it, `key` not empty and free of white
+space — whose keys are pairwise distinct (and not among `seen`), followed by white space only -/
+inductive AttrList : List Bytes → Bytes → Prop
+  | done (seen : List Bytes) (r : Bytes) : r.all isWs = true → AttrList seen r
+  | step (seen : List Bytes) (w1 key w2 w3 val rest : Bytes) (q : UInt8) :
+      w1.all isWs = true → key ≠ [] → (∀ c ∈ key, isWs c = false) → w2.all isWs = true → w3.all isWs = true →
+      (q = cQuot ∨ q = cApos) → (∀ c ∈ val, c ≠ q) → key ∉ seen → AttrList (key :: seen) rest →
+      AttrList seen (w1 ++ key ++ w2 ++ 61 :: w3 ++ q :: val ++ q :: rest)
+
+theorem drop_takeWhile_length (p : UInt8 → Bool) : ∀ (l : Bytes), l.drop (l.takeWhile p).length = l.dropWhile p
+  | [] => rfl
+  | c :: cs => by
+    cases hp : p c with
+    | true => simp [List.takeWhile, List.dropWhile, hp, drop_takeWhile_length p cs]
+    | false => simp [List.takeWhile, List.dropWhile, hp]
+
+theorem splitAtByte_some (x : UInt8) : ∀ (b val rest : Bytes), splitAtByte x b = some (val, rest) →
+    b = val ++ x :: rest ∧ ∀ c ∈ val, c ≠ x
+  | [], _, _, h => by simp [splitAtByte] at h
+  | c :: cs, val, rest, h => by
+    simp only [splitAtByte] at h
+    by_cases hc : c = x
+    · simp only [if_pos hc, Option.some.injEq, Prod.mk.injEq] at h
+      obtain ⟨h1, h2⟩ := h
+      subst h1 h2 hc
+      simp
+    · simp only [if_neg hc] at h
+      cases hs : splitAtByte x cs with
+      | none => simp [hs] at h
+      | some pr =>
+        obtain ⟨p1, r1⟩ := pr
+        simp only [hs, Option.map_some, Option.some.injEq, Prod.mk.injEq] at h
+        obtain ⟨h1, h2⟩ := h
+        subst h1 h2
+        obtain ⟨e, hv⟩ := splitAtByte_some x cs p1 r1 hs
+        refine ⟨by rw [e]; simp, fun d hd => ?_⟩
+        rcases List.mem_cons.mp hd with hd | hd
+        · subst hd; exact hc
+        · exact hv d hd
+
+theorem mem_takeWhile_p (p : UInt8 → Bool) : ∀ (l : Bytes) (c : UInt8), c ∈ l.takeWhile p → p c = true
+  | [], _, h => by simp at h
+  | x :: xs, c, h => by
+    cases hp : p x with
+    | false => simp [List.takeWhile, hp] at h
+    | true =>
+      simp only [List.takeWhile, hp, List.mem_cons] at h
+      rcases h with h | h
+      · subst h; exact hp
+      · exact mem_takeWhile_p p xs c h
+
+theorem all_takeWhile (p : UInt8 → Bool) (l : Bytes) : (l.takeWhile p).all p = true := by
+  rw [List.all_eq_true]
+  intro c hc
+  exact mem_takeWhile_p p l c hc
+
+theorem split_ws (l : Bytes) : l = l.takeWhile isWs ++ l.dropWhile isWs := (List.takeWhile_append_dropWhile).symm
+
+theorem dropWhile_head (p : UInt8 → Bool) (l : Bytes) (c : UInt8) (t : Bytes) (h : l.dropWhile p = c :: t) :
+    p c = false := by
+  have hh := List.head?_dropWhile_not p l
+  rw [h] at hh
+  simpa using hh
+
+theorem attrAfterEq_some {x v : Bytes} (h : attrAfterEq x = some v) (hx : ∀ c r, x = c :: r → c = 61 ∨ isWs c = true) :
+    ∃ w2, x = w2 ++ 61 :: v ∧ w2.all isWs = true := by
+  cases x with
+  | nil => simp [attrAfterEq] at h
+  | cons c r =>
+    simp only [attrAfterEq] at h
+    by_cases hc : c = 61
+    · simp only [if_pos hc, Option.some.injEq] at h
+      subst h hc
+      exact ⟨[], rfl, rfl⟩
+    · simp only [if_neg hc] at h
+      cases hdr : r.dropWhile isWs with
+      | nil => simp [hdr] at h
+      | cons e r' =>
+        rw [hdr] at h
+        by_cases he : e = 61
+        · subst he
+          simp only [Option.some.injEq] at h
+          subst h
+          refine ⟨c :: r.takeWhile isWs, ?_, ?_⟩
+          · have := split_ws r
+            rw [hdr] at this
+            rw [List.cons_append, ← this]
+          · rcases hx c r rfl with hcw | hcw
+            · exact absurd hcw hc
+            · simp [hcw, all_takeWhile]
+        · exfalso
+          split at h
+          · rename_i heq; simp only [List.cons.injEq] at heq; exact he heq.1
+          · cases h
+
+theorem attrQuoted_some {v val rest : Bytes} (h : attrQuoted v = some (val, rest)) :
+    ∃ w3 q, v = w3 ++ q :: val ++ q :: rest ∧ w3.all isWs = true ∧ (q = cQuot ∨ q = cApos) ∧ ∀ c ∈ val, c ≠ q := by
+  unfold attrQuoted at h
+  cases hdv : v.dropWhile isWs with
+  | nil => simp [hdv] at h
+  | cons q v' =>
+    rw [hdv] at h
+    simp only at h
+    by_cases hq : (q = cQuot || q = cApos) = true
+    · simp only [hq, if_true] at h
+      obtain ⟨hv', hvq⟩ := splitAtByte_some q v' val rest h
+      refine ⟨v.takeWhile isWs, q, ?_, all_takeWhile _ _, by simpa using hq, hvq⟩
+      have := split_ws v
+      rw [hdv, hv'] at this
+      have e : List.takeWhile isWs v ++ q :: val ++ q :: rest = List.takeWhile isWs v ++ q :: (val ++ q :: rest) := by
+        simp
+      rw [e]; exact this
+    · simp [hq] at h
+
+/-- one step of quick-xml's attribute iterator that yields an attribute: what it consumed is
+`S* key S* '=' S* q value q` -/
+theorem attrNext_shape {b key val rest : Bytes} (h : attrNext b = some (some (key, val, rest))) :
+    ∃ w1 w2 w3 q, b = w1 ++ key ++ w2 ++ 61 :: w3 ++ q :: val ++ q :: rest ∧ w1.all isWs = true ∧ key ≠ [] ∧
+      (∀ c ∈ key, isWs c = false) ∧ w2.all isWs = true ∧ w3.all isWs = true ∧ (q = cQuot ∨ q = cApos) ∧
+      (∀ c ∈ val, c ≠ q) := by
+  unfold attrNext at h
+  have hb := split_ws b
+  cases hd : b.dropWhile isWs with
+  | nil => simp [hd] at h
+  | cons c0 t =>
+    have hhead : isWs c0 = false := dropWhile_head isWs b c0 t hd
+    rw [hd] at h hb
+    simp only at h
+    cases hae : attrAfterEq (t.drop (attrKeyTail t).length) with
+    | none => simp [hae] at h
+    | some v =>
+      simp only [hae] at h
+      cases haq : attrQuoted v with
+      | none => simp [haq] at h
+      | some pr =>
+        obtain ⟨val', rest'⟩ := pr
+        simp only [haq, Option.some.injEq, Prod.mk.injEq] at h
+        obtain ⟨hk, hva, hre⟩ := h
+        subst hva hre
+        have hdrop : t.drop (attrKeyTail t).length = t.dropWhile (fun c => !(c = 61 || isWs c)) :=
+          drop_takeWhile_length _ t
+        obtain ⟨w2, hx, hw2⟩ := attrAfterEq_some hae (by
+          intro c r hcr
+          rw [hdrop] at hcr
+          have := dropWhile_head _ t c r hcr
+          have h2 : ¬ c = 61 → isWs c = true := by simpa using this
+          by_cases h61 : c = 61
+          · exact Or.inl h61
+          · exact Or.inr (h2 h61))
+        obtain ⟨w3, q, hv, hw3, hq, hvq⟩ := attrQuoted_some haq
+        have ht : t = attrKeyTail t ++ t.drop (attrKeyTail t).length := by
+          rw [hdrop]; exact (List.takeWhile_append_dropWhile).symm
+        refine ⟨b.takeWhile isWs, w2, w3, q, ?_, all_takeWhile _ _, ?_, ?_, hw2, hw3, hq, hvq⟩
+        · rw [← hk]
+          conv => lhs; rw [hb, ht, hx, hv]
+          simp
+        · rw [← hk]; simp
+        · rw [← hk]
+          intro d hd'
+          rcases List.mem_cons.mp hd' with hd' | hd'
+          · subst hd'; exact hhead
+          · have := mem_takeWhile_p _ t d hd'
+            simp only [Bool.not_eq_true', Bool.or_eq_false_iff] at this
+            exact this.2
+
+/-- `check_attributes` passed: the bytes after the element name are a well-formed attribute list -/
+theorem attrsOk_attrList : ∀ (fuel : Nat) (b : Bytes) (seen : List Bytes), b.length < fuel →
+    attrsOk fuel b seen = true → AttrList seen b
+  | 0, _, _, hf, _ => by simp at hf
+  | fuel + 1, b, seen, hf, h => by
+    simp only [attrsOk] at h
+    cases hn : attrNext b with
+    | none =>
+      refine AttrList.done seen b ?_
+      unfold attrNext at hn
+      cases hd : b.dropWhile isWs with
+      | nil =>
+        have hb := split_ws b
+        rw [hd, List.append_nil] at hb
+        rw [hb]; exact all_takeWhile _ _
+      | cons c0 t =>
+        rw [hd] at hn
+        simp only at hn
+        split at hn
+        · cases hn
+        · split at hn <;> cases hn
+    | some o =>
+      cases o with
+      | none => simp [hn] at h
+      | some tr =>
+        obtain ⟨key, val, rest⟩ := tr
+        simp only [hn] at h
+        by_cases hs : seen.contains key = true
+        · simp only [hs, if_true] at h; cases h
+        · simp only [hs, Bool.false_eq_true, if_false] at h
+          obtain ⟨w1, w2, w3, q, hb, hw1, hk, hkw, hw2, hw3, hq, hv⟩ := attrNext_shape hn
+          have hlen : rest.length < fuel := by
+            have : b.length = (w1 ++ key ++ w2 ++ 61 :: w3 ++ q :: val ++ q :: rest).length := by rw [← hb]
+            simp only [List.length_append, List.length_cons] at this
+            omega
+          rw [hb]
+          exact AttrList.step seen w1 key w2 w3 val rest q hw1 hk hkw hw2 hw3 hq hv (by simpa using hs)
+            (attrsOk_attrList fuel rest (key :: seen) hlen h)
+
+/-- **every start tag of an accepted document has a well-formed attribute list** -/
+theorem decodeDoc_named_attrs (X : Ext) {root : Bytes} {s : Sch} {q : List QEv} {v : Val}
+    (h : decodeDoc X (.named root) s (deEvents q) = .ok v) {n r : Bytes} (hc : QEv.start n r ∈ q ∨ QEv.empty n r ∈ q) :
+    AttrList [] r := by
+  have hs := decodeDoc_named_no_stop X h
+  have hok : startOk r = true := by
+    cases hp : startOk r with
+    | true => rfl
+    | false =>
+      rcases hc with hc | hc
+      · rw [List.any_eq_true.mpr ⟨.start n r, hc, by simp [QEv.stopsRun, hp]⟩] at hs; cases hs
+      · rw [List.any_eq_true.mpr ⟨.empty n r, hc, by simp [QEv.stopsRun, hp]⟩] at hs; cases hs
+  exact attrsOk_attrList _ r [] (by omega) hok
 
 end S3V.Xml
